@@ -586,7 +586,7 @@ theorem errorCatcherExit_safe (s : State) (r : Nat) (clean : Bool) : Safe s (err
 theorem discard_safe (s : State) (c : Option Nat) : Safe s (discard s c).1 := by
   unfold discard
   cases c with
-  | none => exact putConn_safe _ _
+  | none => exact Safe.refl _
   | some i => exact (connClose_safe s i).trans (putConn_safe _ _)
 
 theorem markReturned_safe (s : State) (r : Nat) : Safe s (markReturned s r) :=
@@ -4569,6 +4569,18 @@ theorem request_prov {A : Nat → Attempt → Prop} (rid : Nat) : ∀ (script : 
     | some e => exact p
     | none =>
     dsimp only
+    -- a `pool_timeout` that `queue.get` rejects: `ValueError` out of `_get_conn`, the state is untouched
+    rcases getConnT_cases s rc.badPoolTimeout with hT | ⟨hT, -⟩
+    rotate_left
+    · rw [hT]
+      dsimp only
+      have pd := (discard_safe s none).prov p
+      split
+      · exact p
+      · exact afterDiscard _ _ _ pd
+      · exact afterDiscard _ _ _ pd
+      · exact afterDiscardRec _ _ _ _ pd
+    rw [hT]
     generalize hg : getConn s = res
     obtain ⟨s1, eg⟩ := res
     have p1 : Prov A s1 := by have := (getConn_safe s).prov p; rw [hg] at this; exact this
